@@ -27,6 +27,7 @@ valid_case = generic.valid_case
 
 def cases(seed, tier):
     yield from generic.interruption_cases(ID, seed, tier, dev_faults=0.5, K=(12, 20))
+    yield from generic.resume_window_cases(ID, seed, tier)
 
 
 EXPECTED = {"stop": "success", "abort": "abort", "halt": "abort", "failed_pause": "abort", "completed": "success"}
